@@ -6,31 +6,33 @@ Import ListNotations.
 Require Import ReWrite C11_Utf8 TexModel C11_Spec TexRef C11_Sim C11_Step.
 
 (* ---- every history ---- *)
-Theorem tex_refines_contract l : forall g b s, R g b s -> ok_seq g s l = true -> run b l = srun s l.
+Theorem tex_refines_contract l : forall g k b s, R g b s -> (zn (cap b) <= k)%Z -> ok_seq g k s l = true -> run b l = srun s l.
 Proof.
-  induction l as [|o r IH]; intros g b s HR Hok; [reflexivity|].
+  induction l as [|o r IH]; intros g k b s HR Hcap Hok; [reflexivity|].
   cbn [ok_seq] in Hok. apply andb_prop in Hok. destruct Hok as [H1 H2].
-  destruct (step_sim g b s o HR H1) as [Ho HR'].
+  destruct (step_sim g k b s o HR Hcap H1) as (Ho & HR' & Hcap').
   unfold run in *. cbn [run_gen srun]. fold (step b o).
   destruct (step b o) as [b' ob]. destruct (sstep s o) as [s' os]. cbn [fst snd] in *.
   pose proof (R_len _ _ _ HR') as Hlen. destruct HR' as (HI' & Hl' & HR'').
   rewrite Ho, Hlen, Hl'. f_equal.
-  apply (IH (next_g g o)); [split; [exact HI'|split; [exact Hl'|exact HR'']] | exact H2].
+  apply (IH (next_g g o) (next_k k o)); [split; [exact HI'|split; [exact Hl'|exact HR'']] | exact Hcap' | exact H2].
 Qed.
 
 (* the states stay related along the way (so every lemma about related states holds in every reachable state) *)
 Definition exec (b : buf) (l : list op) : buf := fold_left (fun b o => fst (step b o)) l b.
 Definition sexec (s : spec) (l : list op) : spec := fold_left (fun s o => fst (sstep s o)) l s.
 Definition gexec (g : bool) (l : list op) : bool := fold_left next_g l g.
-Theorem reachable_related l : forall g b s, R g b s -> ok_seq g s l = true -> R (gexec g l) (exec b l) (sexec s l).
+Definition kexec (k : Z) (l : list op) : Z := fold_left next_k l k.
+Theorem reachable_related l : forall g k b s, R g b s -> (zn (cap b) <= k)%Z -> ok_seq g k s l = true ->
+  R (gexec g l) (exec b l) (sexec s l) /\ (zn (cap (exec b l)) <= kexec k l)%Z.
 Proof.
-  induction l as [|o r IH]; intros g b s HR Hok; [exact HR|].
+  induction l as [|o r IH]; intros g k b s HR Hcap Hok; [split; [exact HR|exact Hcap]|].
   cbn [ok_seq] in Hok. apply andb_prop in Hok. destruct Hok as [H1 H2].
-  destruct (step_sim g b s o HR H1) as [_ HR'].
-  unfold exec, sexec, gexec. cbn [fold_left]. apply IH; assumption.
+  destruct (step_sim g k b s o HR Hcap H1) as (_ & HR' & Hcap').
+  unfold exec, sexec, gexec, kexec. cbn [fold_left]. apply IH; assumption.
 Qed.
-Corollary reachable_inv l g b s : R g b s -> ok_seq g s l = true -> Inv (exec b l).
-Proof. intros HR Hok. apply (reachable_related l g b s HR Hok). Qed.
+Corollary reachable_inv l g k b s : R g b s -> (zn (cap b) <= k)%Z -> ok_seq g k s l = true -> Inv (exec b l).
+Proof. intros HR Hcap Hok. apply (reachable_related l g k b s HR Hcap Hok). Qed.
 
 (* ---- the constructors start related to their contents ---- *)
 Lemma init_related i : init_wf i = true -> R false (init_buf i) (init_spec i).
@@ -55,18 +57,18 @@ Qed.
    after Grow, tex.Buffer's model and the contract of bytes.Buffer return the same results, errors and panics and
    show the same Len and Bytes after every call *)
 Theorem tex_buffer_is_bytes_buffer i l :
-  init_wf i = true -> ok_seq false (init_spec i) l = true -> run (init_buf i) l = srun (init_spec i) l.
-Proof. intros Hwf Hok. apply (tex_refines_contract l false); [apply init_related, Hwf|exact Hok]. Qed.
+  init_wf i = true -> ok_seq false (init_k i) (init_spec i) l = true -> run (init_buf i) l = srun (init_spec i) l.
+Proof. intros Hwf Hok. apply (tex_refines_contract l false (init_k i)); [apply init_related, Hwf|apply Z.le_refl|exact Hok]. Qed.
 
 (* what a caller sees does not depend on the capacity the buffer starts with (nor on nil-ness): the growth path
    taken - small first allocation, reslice, slide, reallocation - is invisible *)
 Corollary capacity_irrelevant i1 i2 l :
   init_wf i1 = true -> init_wf i2 = true -> init_data i1 = init_data i2 ->
-  ok_seq false (init_spec i1) l = true -> run (init_buf i1) l = run (init_buf i2) l.
+  ok_seq false (init_k i1) (init_spec i1) l = true -> ok_seq false (init_k i2) (init_spec i2) l = true ->
+  run (init_buf i1) l = run (init_buf i2) l.
 Proof.
-  intros W1 W2 Hd Hok. rewrite (tex_buffer_is_bytes_buffer i1 l W1 Hok).
-  assert (Hs : init_spec i1 = init_spec i2) by (unfold init_spec; rewrite Hd; reflexivity).
-  rewrite Hs in *. symmetry. apply tex_buffer_is_bytes_buffer; assumption.
+  intros W1 W2 Hd Hok1 Hok2. rewrite (tex_buffer_is_bytes_buffer i1 l W1 Hok1), (tex_buffer_is_bytes_buffer i2 l W2 Hok2).
+  unfold init_spec. rewrite Hd. reflexivity.
 Qed.
 
 (* ---- ReWrite overwrites exactly the addressed bytes ---- *)
@@ -119,8 +121,8 @@ Theorem rewrite_model_exact g b s pos p : R g b s -> (exists l, pre s = Some l) 
   blen (fst (step b (ReWrite pos p))) = blen b.
 Proof.
   intros HR (l & Epre).
-  assert (Hok : op_ok g s (ReWrite pos p) = true) by (cbn [op_ok]; rewrite Epre; reflexivity).
-  destruct (step_sim g b s _ HR Hok) as [Ho HR']. split; [exact Ho|]. split; [apply HR'|].
+  assert (Hok : op_ok g (zn (cap b)) s (ReWrite pos p) = true) by (cbn [op_ok]; rewrite Epre; reflexivity).
+  destruct (step_sim g (zn (cap b)) b s _ HR (Z.le_refl _) Hok) as (Ho & HR' & _). split; [exact Ho|]. split; [apply HR'|].
   rewrite <- (R_len _ _ _ HR'), <- (R_len _ _ _ HR).
   cbn [sstep]. rewrite Epre. destruct (rewrite_at (l ++ un s) pos p) as [sto|] eqn:Erw; cbn [fst un mk]; [|reflexivity].
   pose proof (rewrite_at_length _ _ _ _ Erw) as Hlen. rewrite app_length in Hlen. rewrite skipn_length. lia.
@@ -131,6 +133,30 @@ Qed.
 Theorem new_sized_empty size c : blen (init_buf (INewSized size (Some c))) = 0 /\ live (init_buf (INewSized size (Some c))) = []
   /\ cap (init_buf (INewSized size (Some c))) = c /\ init_panics (INewSized size (Some c)) = (size <? 0)%Z.
 Proof. cbn. auto. Qed.
+
+(* ---- sizes that cannot be allocated: Grow panics with ErrTooLarge, on both sides, and nothing unread is lost;
+   a negative size panics with the negative-count message ---- *)
+Theorem grow_too_large g k b s n : R g b s -> (zn (cap b) <= k <= max_alloc)%Z -> (max_alloc < n)%Z ->
+  snd (step b (Grow n)) = (st_too_large, []) /\ snd (sstep s (Grow n)) = (st_too_large, []) /\
+  live (fst (step b (Grow n))) = live b /\ un (fst (sstep s (Grow n))) = un s.
+Proof.
+  intros HR [Hc Hk] Hn.
+  assert (Hok : op_ok g k s (Grow n) = true).
+  { cbn [op_ok]. replace (max_alloc <? n)%Z with true by (symmetry; apply Z.ltb_lt; exact Hn).
+    replace (k <=? max_alloc)%Z with true by (symmetry; apply Z.leb_le; exact Hk). apply orb_true_r. }
+  destruct (step_sim g k b s _ HR Hc Hok) as (Ho & HR' & _).
+  assert (Hs : sstep s (Grow n) = (mk (un s) (lastk s) (pre_w (pre s)), (st_too_large, []))).
+  { cbn [sstep]. replace (n <? 0)%Z with false by (symmetry; apply Z.ltb_ge; unfold max_alloc in Hn; lia).
+    replace (max_alloc <? n)%Z with true by (symmetry; apply Z.ltb_lt; exact Hn). reflexivity. }
+  rewrite Hs in *. cbn [fst snd un mk] in *.
+  split; [exact Ho|split; [reflexivity|split; [|reflexivity]]].
+  destruct HR' as (_ & Hl' & _). destruct HR as (_ & Hl & _). cbn [un mk] in Hl'. congruence.
+Qed.
+Theorem grow_negative b s n : (n < 0)%Z ->
+  step b (Grow n) = (b, (st_neg_count, [])) /\ sstep s (Grow n) = (s, (st_neg_count, [])).
+Proof.
+  intros Hn. unfold step. cbn [step_gen sstep]. replace (n <? 0)%Z with true by (symmetry; apply Z.ltb_lt; exact Hn). split; reflexivity.
+Qed.
 
 (* ---- the five grow paths are all live ---- *)
 Definition mkb (l : list Z) (o c : nat) : buf := {| bytes := l; off := o; lastr := 0%Z; cap := c; isnil := false |}.
@@ -154,8 +180,9 @@ Definition demo_history : list op :=
    WriteRune 8364%Z; WriteRune (-1)%Z; Write (repeat 9%Z 100); Read 130; ReadRune; UnreadRune; ReadRune; UnreadByte;
    Next 2%Z; OLen; OBytes; Truncate 5%Z; ReadFrom [([1; 2; 3]%Z, 0%Z); ([4]%Z, 5%Z)]; WriteTo 3%Z 0%Z; OString;
    WriteTo 6%Z 0%Z; Grow 1%Z; WriteByte 1%Z; ReadByte; UnreadByte; Reset; Read 1; Truncate 9%Z; Next (-1)%Z; Grow (-1)%Z;
+   Grow 1125899906842624%Z; Grow 9223372036854775807%Z; Grow 4611686018427387903%Z; OLen;
    Write [1; 2; 3; 4; 5]%Z; ReWrite 1%Z [9; 9]%Z; ReadByte; ReWrite 0%Z [8]%Z; UnreadByte; ReadByte; ReWrite 6%Z []%Z; OCap].
-Example demo_ok : ok_seq false (init_spec IZero) demo_history = true /\
+Example demo_ok : ok_seq false (init_k IZero) (init_spec IZero) demo_history = true /\
                   run (init_buf IZero) demo_history = srun (init_spec IZero) demo_history.
 Proof. vm_compute. split; reflexivity. Qed.
 
